@@ -825,6 +825,9 @@ func genC01Inject(r *rand.Rand, tier string, idx int) *World {
 	if canary && chance(r, 0.25) {
 		w.Cfg.PatchDenied = true // the canary label cannot be written: everything else goes on
 	}
+	if canary && w.Extra["shrink"] == "" && chance(r, 0.3) {
+		w.Extra["staleCanaryNode"] = pick(r, "tainted", "gone")
+	}
 	return w
 }
 
@@ -860,6 +863,21 @@ func bodyC01Inject(s *Sim) {
 			e.Spec.Strategy.Canary.Replicas = intOrStr("2")
 			s.Store.ForceUpdate(e)
 			s.RunTask(CtrlEDS, key)
+		}
+	}
+	if st := s.W.Extra["staleCanaryNode"]; st != "" {
+		// a selected canary node stops being eligible, or leaves the cluster, and the replica sets are
+		// synced before the ExtendedDaemonSet has re-selected: status.canary.nodes still names it
+		if e := s.Store.GetEDS(def.NS, def.Name); e != nil && e.Status.Canary != nil && len(e.Status.Canary.Nodes) >= 1 {
+			if n := s.Store.GetNode(e.Status.Canary.Nodes[len(e.Status.Canary.Nodes)-1]); n != nil {
+				if st == "tainted" {
+					n.Spec.Taints = append(n.Spec.Taints, corev1.Taint{Key: "shrunk", Effect: corev1.TaintEffectNoSchedule})
+					s.Store.ForceUpdate(n)
+				} else {
+					s.Store.Remove(objKey{KNode, "", n.Name})
+				}
+				s.Stats.NonVacuous["C01.stale-canary-node"]++
+			}
 		}
 	}
 	for _, p := range s.Store.Pods() {
